@@ -35,13 +35,24 @@ def run(pid, tier, replay):
             o["id"] = i
             f.write(json.dumps(o) + "\n")
             runs.append(st)
-    mism, lines, _ = core.tlc_validate("trace/SerialCheck.tla", "trace/SerialCheck.cfg", out, shards=4, timeout=3000)
+    # many short races around 0 / the wrap in one process: the window of a non-atomic zero skip is a few instructions wide
+    rounds = 3000 if chk.quick else 60000
+    if not replay:
+        rp_out = chk.path("rounds.ndjson")
+        core.run_bin(bus, ["serial-rounds", rp_out, threads, 3, rounds], timeout=3000)
+        with open(out, "a") as f:
+            for i, line in enumerate(open(rp_out)):
+                o = json.loads(line)
+                o["id"] = 1000 + i
+                f.write(json.dumps(o) + "\n")
+        chk.cov["race_rounds"] = rounds
+    mism, lines, _ = core.tlc_validate("trace/SerialCheck.tla", "trace/SerialCheck.cfg", out, shards=8, timeout=3000)
     for mm in mism["MISMATCH"]:
         o = json.loads(lines[mm["line"] - 1])
         st = o["start_hi"] * 65536 + o["start_lo"]
         chk.report(mm["what"], {"clause": mm["what"], "detail": mm["detail"], "start": st}, {"start": st, "threads": threads, "per": per})
     chk.add("traces_validated_against_impl", len(lines))
-    chk.cov["evaluations"] = len(lines) * threads * per
+    chk.cov["evaluations"] = len(runs) * threads * per + (len(lines) - len(runs)) * threads * 3
     chk.cov["distinct_nontrivial"] = len(set(runs))
     chk.cov["rule"] = ("one run = %d threads x %d messages built concurrently after presetting the process-wide counter; distinct by start value; "
                        "start values straddle 0 and the 2^32 wrap") % (threads, per)
